@@ -7,6 +7,7 @@ import (
 	"fmt"
 	"os"
 	"strconv"
+	"strings"
 
 	"verifmc/vf"
 
@@ -73,10 +74,72 @@ func main() {
 			os.Exit(2)
 		}
 		os.Setenv("VERIF_NO_EVIDENCE", "1")
-		ch.Replay(c, art.Case)
+		var generic struct {
+			Panic string `json:"panic_in_code_under_test"`
+		}
+		if json.Unmarshal(art.Case, &generic) == nil && generic.Panic != "" {
+			// not tied to one input of the check's own case format: replay = run the check again
+			guarded(c, func() { ch.Run(c) })
+			os.Exit(c.Finish())
+		}
+		guarded(c, func() { ch.Replay(c, art.Case) })
 		os.Exit(c.Finish())
 	}
-	ch.Run(c)
+	guarded(c, func() { ch.Run(c) })
 	profStop()
 	os.Exit(c.Finish())
+}
+
+// guarded runs f; a panic that escapes the check is classified by its innermost non-runtime frame: inside the
+// library under test (go.sia.tech/core/...) the check was driving it with the inputs of its stated exploration and the
+// library failed to compute a result at all - reported as a violation of the property being checked; anywhere else
+// it is a harness error (exit 2).
+func guarded(c *vf.Ctx, f func()) {
+	defer func() {
+		r := recover()
+		if r == nil {
+			return
+		}
+		text := fmt.Sprint(r) + "\n" + string(debug.Stack())
+		if fn := innermostFrameAtPanic(text); strings.HasPrefix(fn, "go.sia.tech/core/") && !strings.HasPrefix(fn, "go.sia.tech/core/vsync") {
+			first := text
+			if i := strings.IndexByte(first, '\n'); i >= 0 {
+				first = first[:i]
+			}
+			c.Violate("panic-in-code-under-test|"+fn, fmt.Sprintf("the library panicked in %s while the check was driving it (no result computed): %s", fn, first),
+				map[string]string{"panic_in_code_under_test": fn, "panic": first, "trace": text})
+			os.Exit(c.Finish())
+		}
+		fmt.Printf("HARNESS-ERROR panic: %s\n", text)
+		os.Exit(2)
+	}()
+	f()
+}
+
+// innermostFrameAtPanic returns the function of the first non-runtime frame below the first "panic(" line of a Go
+// stack trace (the frame that was executing when the panic was raised).
+func innermostFrameAtPanic(trace string) string {
+	lines := strings.Split(trace, "\n")
+	for i, l := range lines {
+		if !strings.HasPrefix(strings.TrimSpace(l), "panic(") {
+			continue
+		}
+		for _, m := range lines[i+1:] {
+			if strings.HasPrefix(m, "\t") && strings.Contains(m, ".go:") {
+				continue // file:line of the previous frame
+			}
+			fn := strings.TrimSpace(m)
+			if fn == "" {
+				break
+			}
+			if j := strings.LastIndex(fn, "("); j > 0 {
+				fn = fn[:j]
+			}
+			if strings.HasPrefix(fn, "runtime.") || strings.HasPrefix(fn, "runtime/") || strings.HasPrefix(fn, "reflect.") || strings.HasPrefix(fn, "sort.") || strings.HasPrefix(fn, "slices.") {
+				continue
+			}
+			return fn
+		}
+	}
+	return ""
 }
